@@ -11,6 +11,10 @@ ops:
   rt <hex>                                   Utf8ToBig5 (Big5ToUtf8 x) with the real tables
   tbl <b2u-file-hex> <u2b-file-hex> <big5-hex> <utf8-hex>
                                              parse two synthetic table files, then convert one string each way
+  cfg <d|m> <b2u|u2b> <hex>                  the conversion after types.InitConfig under an ini file that names the
+                                             tables: d = [go-pttbbs:types] of the shipped docker ini (paths rewritten
+                                             to <repo>/types/), m = a minimal ini with the two table keys.  The paths
+                                             are resolved by the MODELLED config() over Gen.Big5.configReads.
 -/
 
 structure Tables where
@@ -36,8 +40,31 @@ def wfLine (t : Tables) : String :=
     s!"wf b2u={rb.length}/{(b2uMap rb).size}/{wfB2U rb} u2b={ru.length}/{(u2bMap ru).size}/{wfU2B ru} ascii={t.ascii}"
   | _, _ => "PANIC"
 
-def stepC17 (t : Tables) (ws : List String) : Tables × String :=
+/-- default tables, and the tables under the two ini variants (`none`: InitConfig fails, a file cannot be read). -/
+structure St where
+  dflt : Tables
+  cfgD : Option Tables
+  cfgM : Option Tables
+
+def convOp (t : Tables) (op h : String) : String :=
+  match parseHex h with
+  | none => "bad-op"
+  | some s =>
+    if op = "b2u" then showM toHex (big5ToUtf8 t.b2u s)
+    else if op = "u2b" then showM toHex (utf8ToBig5 t.u2b s)
+    else "bad-op"
+
+def stepC17 (st : St) (ws : List String) : St × String :=
+  let t := st.dflt
   let out := match ws with
+    | ["cfg", v, op, h] =>
+        if op ≠ "b2u" ∧ op ≠ "u2b" then "bad-op" else
+        match parseHex h with
+        | none => "bad-op"
+        | some _ =>
+          if v = "d" then (match st.cfgD with | some t' => convOp t' op h | none => "INIT-ERR")
+          else if v = "m" then (match st.cfgM with | some t' => convOp t' op h | none => "INIT-ERR")
+          else "bad-op"
     | ["wf"] => wfLine t
     | ["b2u", h] => match parseHex h with
         | some s => showM toHex (big5ToUtf8 t.b2u s)
@@ -58,17 +85,42 @@ def stepC17 (t : Tables) (ws : List String) : Tables × String :=
           | _, _ => "PANIC"
         | _, _, _, _ => "bad-op"
     | _ => "bad-op"
-  (t, out)
+  (st, out)
 
 def readBytes (path : System.FilePath) : IO Bytes := do
   let b ← IO.FS.readBinFile path
   pure (b.toList.map UInt8.toNat)
 
+/-- the ini the harness writes for a variant: viper key ↦ value. -/
+def iniOf (repo : String) (variant : String) : Env :=
+  let pre := Gen.Big5.configPrefix ++ "."
+  if variant = "d" then
+    Gen.Big5.dockerIni.map fun (k, v) =>
+      (pre ++ k, if v.startsWith "/etc/go-pttbbs/" then repo ++ "/types/" ++ (v.drop "/etc/go-pttbbs/".length).toString else v)
+  else
+    [(pre ++ "big5_to_utf8", repo ++ "/" ++ Gen.Big5.b2uPath), (pre ++ "utf8_to_big5", repo ++ "/" ++ Gen.Big5.u2bPath)]
+
+def loadCfg (repo : String) (dflt : Tables) (variant : String) : IO (Option Tables) := do
+  let env0 : Env := [("BIG5_TO_UTF8", Gen.Big5.b2uPath), ("UTF8_TO_BIG5", Gen.Big5.u2bPath)]
+  let env := runConfig Gen.Big5.configReads (iniOf repo variant) env0
+  let pb := cfgVar env "BIG5_TO_UTF8"
+  let pu := cfgVar env "UTF8_TO_BIG5"
+  if pb = repo ++ "/" ++ Gen.Big5.b2uPath ∧ pu = repo ++ "/" ++ Gen.Big5.u2bPath then
+    return some dflt
+  -- a relative path is looked up below the child's working directory (a fresh temporary directory): not there
+  if !pb.startsWith "/" || !pu.startsWith "/" then return none
+  try
+    let cb ← readBytes pb
+    let cu ← readBytes pu
+    return some (mkTables cb cu)
+  catch _ => return none
+
 def main : IO Unit := do
   let repo := (← IO.getEnv "VERIF_REPO").getD "/repo"
-  let cb ← readBytes (System.FilePath.mk repo / Gen.Big5.b2uPath)
-  let cu ← readBytes (System.FilePath.mk repo / Gen.Big5.u2bPath)
+  let cb ← readBytes (repo ++ "/" ++ Gen.Big5.b2uPath)
+  let cu ← readBytes (repo ++ "/" ++ Gen.Big5.u2bPath)
   let t := mkTables cb cu
+  let st : St := { dflt := t, cfgD := ← loadCfg repo t "d", cfgM := ← loadCfg repo t "m" }
   let inp ← IO.getStdin
   let out ← IO.getStdout
-  runLoop { init := t, step := stepC17 } inp out t
+  runLoop { init := st, step := stepC17 } inp out st
